@@ -55,7 +55,18 @@ type con struct {
 	Obj   string
 	Ver   int64 // noVer: ask for the object name (metadata discovery)
 	Slack int
+	// Style: how the application reads ConsumeState.Content() in its callback.
+	//   ""     copies every piece at once (append(buf, st.Content()...), as tools/catchunks writes it out)
+	//   "keep" keeps the slices returned by Content() in every callback WITHOUT copying and
+	//          concatenates them when completion is reported
+	//   "late" does not touch Content() while the fetch is in progress, reads once at completion
+	//   "alt"  reads in every second callback and at completion, keeping the slices (pieces of
+	//          several segments, the window start lags behind the contiguous range)
+	Style string
 }
+
+// consumer styles other than the copying one
+var keptStyles = []string{"keep", "late", "alt"}
 
 type scenario struct {
 	Store string // mem | bolt
@@ -149,6 +160,9 @@ func (c con) String() string {
 	if c.Slack > 0 {
 		s += fmt.Sprintf(" slack%d", c.Slack)
 	}
+	if c.Style != "" {
+		s += " " + c.Style
+	}
 	return "C(" + s + ")"
 }
 
@@ -228,6 +242,9 @@ type consumeRec struct {
 	got       []byte
 	expKnown  bool
 	expVer    uint64
+	verified  int         // got[:verified] has been compared with the published bytes
+	pieces    []*heldWire // styles that keep what Content() returned: the slice and a copy taken at once
+	reads     int
 }
 
 type inst struct {
@@ -660,6 +677,13 @@ func (in *inst) checkProduced(p pub, ver uint64, data []byte, got enc.Name) {
 	}
 }
 
+func clip(s string, n int) string {
+	if len(s) > n {
+		return s[:n] + fmt.Sprintf("... (%d more characters)", len(s)-n)
+	}
+	return s
+}
+
 func head(b []byte) []byte {
 	if len(b) > 12 {
 		return b[:12]
@@ -696,15 +720,60 @@ func (in *inst) consume(c con) {
 		if rec.completed > 0 {
 			in.bad("C15.once", "callback invoked again after it saw IsComplete()", fmt.Sprintf("%s: call #%d (complete=%v err=%v) after completion was already reported", c, rec.calls, st.IsComplete(), st.Error()))
 		}
-		chunk := st.Content()
-		if st.IsComplete() {
+		done := st.IsComplete()
+		read := true
+		switch c.Style {
+		case "late":
+			read = done
+		case "alt":
+			read = done || rec.calls%2 == 0
+		}
+		if read {
+			chunk := st.Content()
+			rec.reads++
+			if c.Style != "" {
+				// the application keeps the slice; the reference keeps a private copy taken now
+				rec.pieces = append(rec.pieces, &heldWire{what: fmt.Sprintf("piece %d (returned by Content() in callback %d, stream offset %d)", len(rec.pieces)+1, rec.calls, len(rec.got)), alias: chunk, copy: append([]byte(nil), chunk...)})
+			}
+			rec.got = append(rec.got, chunk...)
+		}
+		if done {
 			rec.completed++
 			rec.err = st.Error()
 		}
-		rec.got = append(rec.got, chunk...)
+		// pieces kept from earlier callbacks must still be what they were (all of them while there
+		// are few, then every 64th callback, and always at completion)
+		if rec.calls <= 64 || rec.calls%64 == 0 || done {
+			in.recheckPieces(fmt.Sprintf("callback %d of %s", rec.calls, c))
+		}
 		in.checkRec(rec)
 		return true
 	})
+}
+
+// recheckPieces: a consumer that keeps the slices Content() returned (styles keep, alt; late keeps
+// its single one) assembles the object from them when completion is reported; the object is
+// retrieved byte-for-byte only if every such slice still holds the bytes it held when it was handed
+// out - whatever the client did afterwards for this or for another fetch.
+func (in *inst) recheckPieces(after string) {
+	for _, rec := range in.recs {
+		for _, h := range rec.pieces {
+			if h.alias == nil {
+				continue
+			}
+			eq, fault := safeEqual(h.alias, h.copy)
+			if eq {
+				continue
+			}
+			i := 0
+			for fault == nil && i < len(h.copy) && h.alias[i] == h.copy[i] {
+				i++
+			}
+			in.bad("C15.bytes", "bytes returned by ConsumeState.Content() do not stay intact: a consumer that keeps the pieces and joins them at completion gets other bytes than were published",
+				fmt.Sprintf("%s: %s, %d bytes, differs from what it was when it was returned, first at offset %d (fault: %v), after %s; %d pieces kept so far (the slice is backed by memory the client writes to again)", rec.tgt, h.what, len(h.copy), i, fault, after, len(rec.pieces)))
+			h.alias = nil // reported once
+		}
+	}
 }
 
 func (in *inst) expected(rec *consumeRec) ([]byte, bool) {
@@ -715,11 +784,26 @@ func (in *inst) expected(rec *consumeRec) ([]byte, bool) {
 	return b, ok
 }
 
+// fetchPrefix selects the Interests of the fetch of one object: <object>/32=metadata... and
+// <object>/<version>/<segment> - not those of another object whose name merely starts with this
+// object's name (/p/doc and the application object /p/doc/metadata).
+type fetchPrefix enc.Name
+
+func (p fetchPrefix) IsPrefix(n enc.Name) bool {
+	if !enc.Name(p).IsPrefix(n) || len(n) <= len(p) {
+		return false
+	}
+	c := n[len(p)]
+	return c.Typ == enc.TypeVersionNameComponent || (c.Typ == enc.TypeKeywordNameComponent && string(c.Val) == "metadata")
+}
+
 func (in *inst) checkRec(rec *consumeRec) {
 	exp, ok := in.expected(rec)
 	if len(rec.got) > 0 {
 		if !ok {
 			in.bad("C15.bytes", "content delivered for a version that was never published", fmt.Sprintf("%s delivered %d bytes, expected version known=%v", rec.tgt, len(rec.got), rec.expKnown))
+		} else if rec.verified <= len(rec.got) && len(rec.got) <= len(exp) && bytes.Equal(rec.got[rec.verified:], exp[rec.verified:len(rec.got)]) {
+			rec.verified = len(rec.got) // (only the new bytes are compared: long objects)
 		} else if !bytes.HasPrefix(exp, rec.got) {
 			if len(rec.got) > len(exp) && bytes.HasPrefix(rec.got, exp) {
 				in.bad("C15.bytes", "more bytes delivered than were published", fmt.Sprintf("%s delivered %d bytes, published %d", rec.tgt, len(rec.got), len(exp)))
@@ -745,7 +829,7 @@ func (in *inst) checkRec(rec *consumeRec) {
 		return
 	}
 	// completion with an error: legal only if some Interest of this fetch exhausted its budget
-	pfx := mkName(rec.tgt.Obj, 0)
+	pfx := fetchPrefix(mkName(rec.tgt.Obj, 0))
 	worst := 0
 	// only transmissions the network carried count as losses; a retransmission the network dropped
 	// because it repeated the nonce of an earlier transmission is the client's doing
@@ -1467,9 +1551,10 @@ func (in *inst) one(name string) {
 // final runs when nothing is enabled any more: every consumer must have seen completion once.
 func (in *inst) final() {
 	in.done = true
+	in.recheckPieces("the end of the history")
 	for _, rec := range in.recs {
 		if rec.completed == 0 {
-			in.bad("C15.once", "consumer callback never reports completion although nothing is pending", fmt.Sprintf("%s: %d callback calls, %d bytes delivered, no pending Interest, no queued client work; client: %s", rec.tgt, rec.calls, len(rec.got), in.cons.VerifDump()))
+			in.bad("C15.once", "consumer callback never reports completion although nothing is pending", fmt.Sprintf("%s: %d callback calls, %d bytes delivered, no pending Interest, no queued client work; client: %s", rec.tgt, rec.calls, len(rec.got), clip(in.cons.VerifDump(), 1500)))
 		}
 	}
 	if len(in.viol) == 0 {
